@@ -85,3 +85,10 @@ package arp
 //@                             when e == nil && arpchain(s.rcvDecoded) && len(s.rcvARP.SourceHwAddress) == 6 && len(s.rcvARP.SourceProtAddress) == 4 && ret == nil
 //@                               && pa == s.rcvARP.SourceProtAddress && ha == s.rcvARP.SourceHwAddress
 //@                               && isptr(x, ScanResult) && fresh(asptr(x, ScanResult)) && asptr(x, ScanResult).IP == ips && asptr(x, ScanResult).MAC == macs -> exit
+
+// C03: capture filter text: "arp", or "arp src net " + subnet
+//@ func BPFFilter
+//@   props C03
+//@   observe (*net.IPNet).String, fmt.Sprintf
+//@   entry row bare: [] when r.DstSubnet == nil && ret0 == "arp" && ret1 == 64 -> exit
+//@   entry row net:  [call String(r.DstSubnet) as (ns) ; call fmt.Sprintf("arp src net %s", bind_a) as (f)] when r.DstSubnet != nil && len(a) == 1 && astype(a[0], string) == ns && ret0 == f && ret1 == 64 -> exit
